@@ -459,6 +459,31 @@ fn generate(rng: &mut Rng, tier: Tier, cases: &mut Vec<Case>) {
         packed("fclasses-triples", ty, &vs, 300, cases);
     }
 
+    // big vectors: more than 65 536 elements that share a byte value in some round (a bucket count or offset of
+    // 8 / 16 bits overflows), scrambled
+    for (ty, n) in [("u32", 70_000u128), ("i64", 66_000), ("u8", 70_000)] {
+        if quick && ty == "u8" {
+            continue;
+        }
+        let bits: u32 = match ty {
+            "u8" => 8,
+            "u32" => 32,
+            _ => 64,
+        };
+        let mask: u128 = if bits == 128 { u128::MAX } else { (1u128 << bits) - 1 };
+        let mut v: Vec<u128> = (0..n)
+            .map(|i| match ty {
+                "i64" => (0u128.wrapping_sub(1 + i % 60_000)) & mask, // small negative values (top bytes all 0xFF)
+                "u8" => i % 3,
+                _ => i,
+            })
+            .collect();
+        if ty == "i64" {
+            v.extend([1u128, 2, 3]);
+        }
+        rng.shuffle(&mut v);
+        single("big-vector", ty, &v, cases);
+    }
     // random vectors, lengths 0..300, every type, every shape
     let per_type = if quick { 120 } else { 3000 };
     for ty in TYPES {
